@@ -223,8 +223,9 @@ CHECKS = {
        "continuous RX goes on). The model is tied to the code on every run: 21 contexts x all operations x interrupt outcomes, a fault at every pin "
        "position and a pending wait at every await_irq, all pairs (thorough: triples), random histories, LoRaWAN adapter; the Coq monitor is compared "
        "with an independent python monitor on the real traces, and the rules are judged on the real driver's traces as well.",
-  note=COMMON_NOTE + "PARTIAL in two respects: (1) SX127x LoRa-mode selection after a failed reset sequence is a known finding (id sx127x-failed-reset-leaves-fsk-mode; "
-       "Coq witness C14_sx127x_lora_mode_refuted), so the SX127x theorem leaves that item out; (2) the chip's own behaviour (mode changes on commands and "
+  note=COMMON_NOTE + "The SX127x theorem includes the selection of the LoRa modem (RegOpMode.LongRangeMode, writable in sleep mode only) among what every start depends on: proved after "
+       "the /repo fix b20c40c (ensure_ready re-asserts sleep | LoRa before a sleeping chip is woken; the former known finding sx127x-failed-reset-leaves-fsk-mode, whose history is now the "
+       "Example C14_sx127x_failed_reset_history). PARTIAL in one respect: the chip's own behaviour (mode changes on commands and "
        "interrupt flags, what sleep / reset lose, when RxDutyCycle sleeps) is the datasheet reading written in Spec/ChipMon.v -- trusted, not derived from silicon. "
        "Faults are on SPI / BUSY / IRQ as the property says (reset and RF-switch outputs do not fail). enter_standby / get_rssi / continuous_wave are outside the property's operation list.",
   tech="machine-checked proof in Coq (invariant over all API histories, faults and cancellations via a sound weakest-precondition calculus) + model/implementation correspondence on histories + chip-side monitor oracle", ref="6 C14"),
